@@ -99,6 +99,8 @@ type allocInfo struct {
 
 // Enc is the symbolic executor for one verification unit.
 type Enc struct {
+	onceCells   map[*ssa.Function]map[*ssa.Alloc]*ssa.Store
+	recoverMode int // 0: recover() is unknown, 1: no panic is in flight (nil), 2: a panic is being recovered (non-nil)
 	tb      *TB
 	L       *Loaded
 	prog    *ssa.Program
@@ -1006,6 +1008,9 @@ func (e *Enc) encodeFunc(fn *ssa.Function, args []Val, bindings []Val, in State,
 			e.instr(fr, b, in, &st)
 		}
 		fr.out[b] = st
+	}
+	if parent == nil && con != nil && con.opts["models-recover"] == "true" && fn.Recover != nil {
+		e.recoverPath(fr, in)
 	}
 	if len(fr.rets) == 0 {
 		return nil, State{reach: e.tb.False(), heap: in.heap, ep: in.ep}, fr
